@@ -942,6 +942,23 @@ def quick_sat(assertions, timeout_ms=1500):
     return 'sat' if r == z3.sat else ('unsat' if r == z3.unsat else 'unknown')
 
 
+def sat_probe(assertions):
+    """Satisfiability of a ground path condition for the vacuity guards (precondition satisfiable, canary): a quick attempt,
+    then longer ones on two solvers - a loaded machine must not turn a guard into "unknown"."""
+    assertions = list(assertions)
+    r = quick_sat(assertions, 5000)
+    if r != 'unknown':
+        return r
+    r = quick_sat(assertions, 60000)
+    if r != 'unknown':
+        return r
+    try:
+        st, _, _ = solve_text((smt2_of(assertions), 60, 'z3-4.8'))
+        return st
+    except Exception:
+        return 'unknown'
+
+
 def val_to_py(v):
     if v is None:
         return None
